@@ -475,8 +475,11 @@ class WCS(object):
 
     def Rotate(self, lon, lat, reverse=False, origin=False):
 
-        longitude = lon * d2r
-        latitude = lat * d2r
+        # in double precision whatever the type of the input (a float32 sky
+        # position is an exact value; under numpy 2 promotion a python float
+        # factor would keep the rotation in single precision)
+        longitude = np.multiply(lon, d2r, dtype="f8")
+        latitude = np.multiply(lat, d2r, dtype="f8")
 
         r = self.rotation_matrix
         if reverse:
